@@ -145,6 +145,42 @@ def sweep(ctx, n):
             m.check_selfintersecting(mode="ignore")
             if m.status_selfintersecting is not True:
                 bad(f"status:{kind}:selfintersection-not-detected", "two interpenetrating parts not reported self-intersecting")
+        # bodies made of several disjoint closed parts where WHOLE parts are given inside-out (every directed edge still occurs
+        # once): after the default reorientation every part must point outwards and H equals the sum of the Cuboid fields
+        for trial in range(max(2, n // 8)):
+            nps = np.random.default_rng(rng.randrange(2**31))
+            nparts = rng.choice([2, 2, 3])
+            dims = [nps.uniform(0.5, 1.5, 3) for _ in range(nparts)]
+            offs = [np.array([3.0 * j, 0.0, 0.0]) for j in range(nparts)]
+            flips = [rng.random() < 0.5 for _ in range(nparts)]
+            if all(flips) or not any(flips):
+                flips[rng.randrange(nparts)] = not flips[0]
+            vv, ff = [], []
+            for d, o, fl in zip(dims, offs, flips):
+                v, f = box(d)
+                if fl:
+                    f = f[:, [0, 2, 1]]
+                ff.append(f + sum(len(x) for x in vv))
+                vv.append(v + o)
+            vv, ff = np.concatenate(vv), np.concatenate(ff)
+            ff = ff[nps.permutation(len(ff))]
+            pol = nps.uniform(-1, 1, 3)
+            m = magpy.magnet.TriangularMesh(vertices=vv, faces=ff, polarization=pol, check_disconnected="ignore", check_selfintersecting="ignore")
+            done += 1
+            kinds["parts-flipped"] = kinds.get("parts-flipped", 0) + 1
+            tri = m.mesh
+            okparts = True
+            for d, o in zip(dims, offs):
+                sel = np.all(np.abs(tri.reshape(len(tri), -1, 3) - o) <= d / 2 + 1e-9, axis=(1, 2))
+                t = tri[sel] - o
+                vol = np.einsum("ij,ij->i", t[:, 0], np.cross(t[:, 1], t[:, 2])).sum() / 6
+                if not vol > 0:
+                    okparts = False
+            obs = far_points(nps, 4, lo=6, hi=9) + np.array([3.0 * (nparts - 1) / 2, 0, 0])
+            Href = sum(magpy.magnet.Cuboid(dimension=d, polarization=pol, position=o).getH(obs) for d, o in zip(dims, offs))
+            if not okparts or not np.allclose(m.getH(obs), Href, rtol=1e-8, atol=1e-10 * np.max(np.abs(Href))):
+                bad("orientation:parts-flipped", "a mesh of several disjoint boxes with whole boxes given inside-out is not oriented outwards part by part after reorientation",
+                    {"dims": [x.tolist() for x in dims], "flipped_parts": flips, "faces": ff.tolist()})
         # a thin spike piercing the interior of one triangle of a box face (no mutual edge crossings), for every
         # relative order of spike faces and box faces
         for trial in range(max(2, n // 8)):
